@@ -139,7 +139,10 @@ the witness must behave as documented).
 * `subjectCopied` (F-C03-2, /repo 65de4a1): `compile_match` copies a subject that lives in a
   local's register into a fresh temporary, so patterns destructure a private copy;
 * `typedFirst`    (F-C03-8, requests/C03-fix-8.diff): a type-hinted binding (`x: T`, `{k: T}`,
-  `{k as x: T}`) is checked in a temporary and written only when the check succeeds. -/
+  `{k as x: T}`) is checked in a temporary and written only when the check succeeds;
+* `mapAtomic`     (/repo 3d805f4, requests/C04-fix-6.diff; narrows F-C03-11): `try_unpack_map`
+  unpacks every entry of a map pattern into temporaries and copies them into the pattern's
+  variables only after the last entry's check has passed (all-or-nothing). -/
 structure Cfg where
   sizeNullJumps : Bool
   nestedLast : Bool
@@ -147,12 +150,13 @@ structure Cfg where
   rangeSlices : Bool
   subjectCopied : Bool
   typedFirst : Bool
+  mapAtomic : Bool
   deriving DecidableEq, Repr, Inhabited
 
 /-- the tree the findings were recorded on -/
-def Cfg.recorded : Cfg := ⟨false, false, false, false, false, false⟩
+def Cfg.recorded : Cfg := ⟨false, false, false, false, false, false, false⟩
 /-- every repair applied -/
-def Cfg.repaired : Cfg := ⟨true, true, true, true, true, true⟩
+def Cfg.repaired : Cfg := ⟨true, true, true, true, true, true, true⟩
 
 /-! ### the VM operations a match uses, on every kind of value -/
 
@@ -315,8 +319,9 @@ def sizeCheck (C : Cfg) (v : Val) (n : Nat) (hasRest : Bool) : Except Err Bool :
   | none => if hasRest && !C.sizeNullJumps then .error .geNull else .ok false
   | some k => .ok (if hasRest then decide (n - 1 ≤ k) else k == n)
 
-/-- `try_unpack_map`, entry by entry -/
-def mEnts (C : Cfg) : List Ent → Src → Env → R
+/-- `try_unpack_map` before /repo 3d805f4: entry by entry, each variable written as soon as its
+entry has been accessed (and checked, with `typedFirst`) -/
+def mEntsSeq (C : Cfg) : List Ent → Src → Env → R
   | [], _, ρ => .ok ρ
   | e :: es, s, ρ =>
     match tryAccess C (s.rd ρ) e.key with
@@ -324,7 +329,33 @@ def mEnts (C : Cfg) : List Ent → Src → Env → R
     | .ok none => .fail ρ
     | .ok (some v) =>
       let ρ1 := match e.bind with | some x => ρ.set x v | none => ρ
-      if tyFail e.ty v then .fail (if C.typedFirst then ρ else ρ1) else mEnts C es s ρ1
+      if tyFail e.ty v then .fail (if C.typedFirst then ρ else ρ1) else mEntsSeq C es s ρ1
+
+/-- `try_unpack_map` since 3d805f4, first phase: every entry is accessed and checked into
+temporaries; `ok none` = some access or check failed (jump), `ok (some β)` = the pending
+assignments, in entry order -/
+def collectEnts (C : Cfg) : List Ent → Val → Except Err (Option Writes)
+  | [], _ => .ok (some [])
+  | e :: es, m =>
+    match tryAccess C m e.key with
+    | .error er => .error er
+    | .ok none => .ok none
+    | .ok (some v) =>
+      if tyFail e.ty v then .ok none
+      else
+        match collectEnts C es m with
+        | .error er => .error er
+        | .ok none => .ok none
+        | .ok (some β) => .ok (some ((match e.bind with | some x => [(x, v)] | none => []) ++ β))
+
+/-- `try_unpack_map` -/
+def mEnts (C : Cfg) (es : List Ent) (s : Src) (ρ : Env) : R :=
+  if C.mapAtomic then
+    match collectEnts C es (s.rd ρ) with
+    | .error er => .err er
+    | .ok none => .fail ρ
+    | .ok (some β) => .ok (ρ.apply β)    -- second phase: commit
+  else mEntsSeq C es s ρ
 
 def restCount (rest : Option (Option Name)) : Nat := if rest.isSome then 1 else 0
 
